@@ -102,7 +102,7 @@ func planRun(p *Property, tier string, seed uint64, i int) (conf string, idx int
 	w = p.Gen(rng, conf, idx)
 	strats := p.Strategies
 	if len(strats) == 0 {
-		strats = []string{"uniform", "pct", "starve"}
+		strats = []string{"uniform", "pct", "starve", "lag"}
 	}
 	sc = SchedCfg{Seed: sim.SplitMix(rs ^ 0x5c4ed), Strategy: strats[rng.Intn(len(strats))]}
 	return
